@@ -2,6 +2,7 @@ mod a2lgen;
 mod c01;
 mod c03;
 mod c03lex;
+mod c04;
 mod c05;
 mod c06;
 mod c07;
@@ -9,6 +10,7 @@ mod c12;
 mod c13;
 mod c14;
 mod c17;
+mod c20;
 mod common;
 mod docgen;
 mod tree;
@@ -58,6 +60,7 @@ fn main() {
         "C01" => c01::run(&args),
         "C03" => c03::run(&args),
         "C03L" => c03lex::run(&args),
+        "C04" => c04::run(&args),
         "C05" => c05::run(&args),
         "C06" => c06::run(&args),
         "C07" => c07::run(&args),
@@ -66,6 +69,7 @@ fn main() {
         "C14" => c14::run_c14(&args),
         "C15" => c14::run_c15(&args),
         "C17" => c17::run(&args),
+        "C20" => c20::run(&args),
         _ => {
             eprintln!("unknown property {prop}");
             std::process::exit(2);
